@@ -55,6 +55,8 @@ DISPOSABLES = [
     [{"enter": "ok", "exit": "raise", "yields": "none"}],
     [{"enter": "ok", "exit": "susp_ok", "yields": "none"}],
     [{"enter": "ok", "exit": "ok", "yields": "none", "signals": True}],
+    # two distinct disposables that compare equal; the later one is the resource a task waits for
+    [{"enter": "ok", "exit": "ok", "yields": "none", "twin": True}, {"enter": "ok", "exit": "ok", "yields": "none", "twin": True, "signals": True}],
 ]
 
 
@@ -121,9 +123,10 @@ def programs(tier: str):
     # are released before the block waits for its tasks
     for n_wait in (1, 2):
         for ending, cancels in (("return", 0), ("raise", 0), ("return", 1)):
-            p = _prog((), ending, cancels, False, 3)
-            p["block"]["spawns"] = [{"kind": "wait_dispose", "pauses": 0} for _ in range(n_wait)] + [dict(SPAWNS[1])]
-            yield p
+            for dvar in (3, 4):
+                p = _prog((), ending, cancels, False, dvar)
+                p["block"]["spawns"] = [{"kind": "wait_dispose", "pauses": 0} for _ in range(n_wait)] + [dict(SPAWNS[1])]
+                yield p
     extra_k = kmax + 1
     pool = [0, 1, 3, 4, 5] if tier == "quick" else [1, 2, 4, 5]
     for combo in itertools.combinations_with_replacement(pool, extra_k):
